@@ -121,14 +121,6 @@ func positions(meaning *gt.Node, canonSrc func(string) (string, bool)) (out []po
 			case doc.KGroup:
 				for j, k := range s.Keys {
 					if k == "steps" {
-						// a group holding an unknown step is downgraded as a whole; C13 covers that
-						if cv := s.Vals[j]; cv.Kind == gt.Seq {
-							for _, c := range cv.Items {
-								if ck, _ := doc.KindOfStep(c); ck == doc.KUnknown {
-									excluded = "unknown step inside a group"
-								}
-							}
-						}
 						walkSteps(s.Vals[j], appendPath(sp, "steps"))
 					} else if !groupModelled[k] {
 						nested(s.Vals[j], appendPath(sp, k), true, "mapping nested in an unknown field of a group step", &out)
